@@ -372,3 +372,149 @@ func ru3ReportSingleWriter(w *World) {
 	w.floor("accesses of task.report in package incremental", nSites, 2)
 	w.floor("*Task literals bound to a task", nLits, 1)
 }
+
+// RU4 (C36): sort keys are unconditional projections. Every key function handed to the comparator
+// of Report.Canonicalize (cmpx.Key / cmpx.Map function literals) must consist of a single return
+// of an expression over its argument. A key that returns a constant under some condition makes
+// the diagnostics that satisfy the condition tie on that key; slices.SortFunc is unstable and the
+// de-duplication keeps one member of each tied group, so which diagnostic survives would depend on
+// the order in which the tasks' reports were merged (sync.Map iteration order, the schedule).
+func ru4KeysUnconditional(w *World) {
+	w.rule("RU4")
+	p := w.pkg(reportRel)
+	canon := w.fn(reportRel, "(*Report).Canonicalize")
+	if p == nil || canon == nil {
+		return
+	}
+	info := p.TypesInfo
+	n := 0
+	seen := map[*types.Func]bool{}
+	var visit func(body ast.Node, depth int)
+	visit = func(body ast.Node, depth int) {
+		ast.Inspect(body, func(x ast.Node) bool {
+			switch e := x.(type) {
+			case *ast.CallExpr:
+				f := callee(info, e)
+				if f == nil || f.Pkg() == nil || !strings.HasSuffix(f.Pkg().Path(), "/cmpx") || (f.Name() != "Key" && f.Name() != "Map") || len(e.Args) == 0 {
+					return true
+				}
+				fl, ok := e.Args[0].(*ast.FuncLit)
+				if !ok {
+					return true
+				}
+				n++
+				key := "key-unconditional|" + types.ExprString(e.Fun) + "|" + w.pos(fl.Pos())
+				if len(fl.Body.List) == 1 {
+					if r, ok := fl.Body.List[0].(*ast.ReturnStmt); ok && len(r.Results) == 1 {
+						key = "key-unconditional|" + types.ExprString(r.Results[0])
+						w.ok(key, fl.Pos(), "the key is a plain projection of the diagnostic")
+						return true
+					}
+				}
+				w.violation(key, fl.Pos(), "a sort key of Canonicalize is computed by a function with more than a single return: under the branch that returns a constant, diagnostics tie on this key, and which member of a duplicate group survives then depends on the order the reports were merged in")
+			case *ast.Ident:
+				if f, ok := info.Uses[e].(*types.Func); ok && depth < 3 && !seen[f] && f.Pkg() == p.Types && f.Type().(*types.Signature).Recv() == nil {
+					if d := w.decls[f]; d != nil && d.Body != nil {
+						seen[f] = true
+						visit(d.Body, depth+1)
+					}
+				}
+			}
+			return true
+		})
+	}
+	visit(canon.Decl.Body, 0)
+	w.floor("key functions of Canonicalize's comparator", n, 6)
+}
+
+// RU5 (C36): collecting the diagnostics of a Run does not write shared task state. Run walks the
+// dependency graph of the requested queries and concatenates the tasks' reports; tasks are shared
+// by every Run on the executor and Runs may overlap. The "visited" bookkeeping of that walk must be
+// local to the call: inside the collection loop no field of a *task may be assigned, and no
+// mutating method (Store, Swap, Add, CompareAndSwap, Delete, LoadOrStore, LoadAndDelete, Clear) may
+// be called on one — a per-task visit stamp is overwritten by a concurrent Run, the subtree is
+// walked again, and the report carries a schedule-dependent number of duplicated diagnostics.
+func ru5CollectionReadOnly(w *World) {
+	w.rule("RU5")
+	p := w.pkg(incRel)
+	run := w.fn(incRel, "Run")
+	taskT := w.typ(incRel, "task")
+	if p == nil || run == nil || taskT == nil {
+		return
+	}
+	info := p.TypesInfo
+	// the collection loop: the loop whose body appends <task>.report.Diagnostics
+	var loop *ast.ForStmt
+	ast.Inspect(run.Decl.Body, func(x ast.Node) bool {
+		fs, ok := x.(*ast.ForStmt)
+		if !ok {
+			return true
+		}
+		has := false
+		ast.Inspect(fs.Body, func(y ast.Node) bool {
+			if sel, ok := y.(*ast.SelectorExpr); ok && sel.Sel.Name == "Diagnostics" {
+				if in, ok := ast.Unparen(sel.X).(*ast.SelectorExpr); ok && in.Sel.Name == "report" {
+					has = true
+				}
+			}
+			return true
+		})
+		if has && loop == nil {
+			loop = fs
+		}
+		return true
+	})
+	if loop == nil {
+		w.undecided("collection-read-only|loop", run.Decl.Pos(), "cannot find the loop of Run that collects the tasks' reports")
+		return
+	}
+	isTaskField := func(e ast.Expr) (*types.Var, bool) {
+		sel, ok := ast.Unparen(e).(*ast.SelectorExpr)
+		if !ok {
+			return nil, false
+		}
+		v := selField(info, sel)
+		if v == nil {
+			return nil, false
+		}
+		t := info.TypeOf(sel.X)
+		if pt, ok := t.(*types.Pointer); ok {
+			t = pt.Elem()
+		}
+		if n, ok := t.(*types.Named); ok && n.Origin() == taskT.Origin() {
+			return v, true
+		}
+		return nil, false
+	}
+	mut := map[string]bool{"Store": true, "Swap": true, "Add": true, "CompareAndSwap": true, "Delete": true, "LoadOrStore": true, "LoadAndDelete": true, "Clear": true, "CompareAndDelete": true, "And": true, "Or": true}
+	nAcc, bad := 0, 0
+	ast.Inspect(loop.Body, func(x ast.Node) bool {
+		switch s := x.(type) {
+		case *ast.AssignStmt:
+			for _, l := range s.Lhs {
+				if v, ok := isTaskField(l); ok {
+					nAcc++
+					bad++
+					w.violation("collection-read-only|assign:"+v.Name(), l.Pos(), "task."+v.Name()+" is assigned inside Run's report-collection loop: tasks are shared between overlapping Runs")
+				}
+			}
+		case *ast.CallExpr:
+			sel, ok := ast.Unparen(s.Fun).(*ast.SelectorExpr)
+			if !ok {
+				return true
+			}
+			if v, ok := isTaskField(sel.X); ok {
+				nAcc++
+				if mut[sel.Sel.Name] {
+					bad++
+					w.violation("collection-read-only|"+v.Name()+"."+sel.Sel.Name, s.Pos(), "task."+v.Name()+"."+sel.Sel.Name+" mutates shared task state inside Run's report-collection loop: a concurrent Run overwrites the visit bookkeeping, subtrees are collected again, and the number of duplicated diagnostics in the report depends on the schedule")
+				}
+			}
+		}
+		return true
+	})
+	w.floor("task-field method calls in the collection loop of Run", nAcc, 1)
+	if bad == 0 {
+		w.ok("collection-read-only", loop.Pos(), "the collection loop only reads shared task state (deps.Range, report); its visited set is local to the call")
+	}
+}
